@@ -1273,6 +1273,7 @@ fn body(ctx: &Ctx) -> (Summary, Meta) {
                             }
                             "every_interleaving" => out.count("instrumented_build_programs_with_every_interleaving", v),
                             "not_run_because_of_the_time_cap" => out.count("instrumented_build_programs_not_run(time cap)", v),
+                            "searches_stopped_by_the_per_program_time_cap" => out.count("instrumented_build_program_searches_stopped_by_the_time_cap(not exhaustive for those)", v),
                             "cell_accesses_are_scheduling_points" => out.count("instrumented_build_cell_accesses_are_scheduling_points", v),
                             _ => {}
                         }
